@@ -12,6 +12,7 @@ accepted them without `partial`/well-founded fuel, so each returns an error or a
 -/
 import BHS.Proofs.Wire
 import BHS.Proofs.WireAlloc
+import BHS.Proofs.WireInv
 
 namespace BHS.Props.C14
 open BHS BHS.Wire BHS.Gen BHS.Gen.WireC
@@ -21,6 +22,15 @@ open BHS BHS.Wire BHS.Gen BHS.Gen.WireC
 /-- ReadVarInt (WriteVarInt n) = n for every uint64 -/
 theorem varint_roundtrip (n : Nat) (h : n < 2^64) (rest : Bytes) :
     (getVarInt (putVarInt n ++ rest)).2 = .ok (n, rest) := getVarInt_putVarInt n h rest
+
+/-- ReadVarInt accepts exactly the canonical encodings: it returns `n` (leaving `rest`) iff the input
+    is WriteVarInt(n) followed by `rest` -/
+theorem varint_canonical (bs : Bytes) (n : Nat) (rest : Bytes) :
+    (getVarInt bs).2 = .ok (n, rest) ↔ (bs = putVarInt n ++ rest ∧ n < 2^64) := by
+  constructor
+  · exact getVarInt_inv
+  · rintro ⟨rfl, h⟩; exact getVarInt_putVarInt n h rest
+
 
 /-! ## payload round trip, per kind: a well-formed message encodes, and its encoding (followed by
 anything) decodes back to the same message -/
@@ -275,6 +285,231 @@ theorem readMessage_writeMessage_wf (H : Bytes → Bytes) (hH : ∀ x, (H x).len
     readMessage H gmax pver net (frame ++ rest) = .ok (m, rest) :=
   readMessage_writeMessage H hH gmax pver net hg hn m frame rest hw
     (fun enc he => decode_encode gmax pver hg1 (by omega) m wf enc he)
+
+/-! ## re-encoding: whatever bytes a decoder accepts, the decoded message is well-formed and its
+encoding is exactly the prefix of the input the decoder consumed (var-ints are canonical, the tx-count
+of a header is 0, every field is carried verbatim). True for every kind except `version` (optional
+trailing fields, any non-zero relay byte, ignored trailing bytes: `reencode_version_counterexample`),
+for `addr` only from MultipleAddressVersion on (below it the encoder refuses what the decoder accepts),
+and not for protoconf/authch whose payload is ignored on decode. -/
+
+/-- re-encoding: a successfully decoded `inv`-family message is well-formed and its encoding is a prefix of the input -/
+theorem reencode_inv (gmax pver : Nat) (bs : Bytes) (m : Msg) (h : decodePayload gmax pver .MsgInv bs = .ok m) :
+    ∃ enc rest, encodePayload pver m = .ok enc ∧ bs = enc ++ rest ∧ WF gmax pver m := by
+  obtain ⟨rest, h⟩ := decodePayload_inv h
+  simp only [decodeRd] at h
+  obtain ⟨l, b1, h1, h⟩ := bind_snd_inv h
+  obtain ⟨e1, e2⟩ := pure_inv h
+  obtain ⟨e3, wf⟩ := decInvList_inv _ _ _ h1
+  subst e1 e2
+  refine ⟨putVarInt l.length ++ l.flatMap putInvVect, rest, ?_, e3, wf⟩
+  simp only [encodePayload, encInvList]; rw [if_neg (by have := wf.1; omega)]
+
+theorem reencode_getheaders (gmax pver : Nat) (bs : Bytes) (m : Msg) (h : decodePayload gmax pver .MsgGetHeaders bs = .ok m) :
+    ∃ enc rest, encodePayload pver m = .ok enc ∧ bs = enc ++ rest ∧ WF gmax pver m := by
+  obtain ⟨rest, h⟩ := decodePayload_inv h
+  simp only [decodeRd] at h
+  obtain ⟨pv, loc, stop, e1, e2, wf⟩ := decLocator_inv _ _ _ _ h
+  subst e1
+  refine ⟨put32le pv ++ putVarInt loc.length ++ loc.flatMap putHash ++ putHash stop, rest, ?_, e2, wf⟩
+  simp only [encodePayload, encLocator]; rw [if_neg (by have := wf.2.1; omega)]
+
+theorem reencode_headers (gmax pver : Nat) (bs : Bytes) (m : Msg) (h : decodePayload gmax pver .MsgHeaders bs = .ok m) :
+    ∃ enc rest, encodePayload pver m = .ok enc ∧ bs = enc ++ rest ∧ WF gmax pver m := by
+  obtain ⟨rest, h⟩ := decodePayload_inv h
+  simp only [decodeRd, decHeaders] at h
+  obtain ⟨n, b1, h1, h⟩ := bind_snd_inv h
+  obtain ⟨u, b2, h2, h⟩ := bind_snd_inv h
+  obtain ⟨l, b3, h3, h⟩ := bind_snd_inv h
+  obtain ⟨e1, k1⟩ := getVarInt_inv h1
+  obtain ⟨k2, e2⟩ := guardAlloc_inv h2
+  obtain ⟨e3, hl, hall⟩ := getMany_inv (p := putHeaderElem) (P := WFHeader) getHeaderElem_inv _ _ _ _ h3
+  obtain ⟨e4, e5⟩ := pure_inv h
+  subst e1 e2 e3 e4 e5 hl
+  refine ⟨putVarInt l.length ++ l.flatMap putHeaderElem, rest, ?_, by simp, k2, hall⟩
+  simp only [encodePayload]; rw [if_neg (by omega)]
+
+theorem reencode_addr (gmax pver : Nat) (hp : multipleAddressVersion ≤ pver) (bs : Bytes) (m : Msg)
+    (h : decodePayload gmax pver .MsgAddr bs = .ok m) :
+    ∃ enc rest, encodePayload pver m = .ok enc ∧ bs = enc ++ rest ∧ WF gmax pver m := by
+  obtain ⟨rest, h⟩ := decodePayload_inv h
+  simp only [decodeRd, decAddr] at h
+  obtain ⟨n, b1, h1, h⟩ := bind_snd_inv h
+  obtain ⟨u, b2, h2, h⟩ := bind_snd_inv h
+  obtain ⟨l, b3, h3, h⟩ := bind_snd_inv h
+  obtain ⟨e1, k1⟩ := getVarInt_inv h1
+  obtain ⟨k2, e2⟩ := guardAlloc_inv h2
+  obtain ⟨e3, hl, hall⟩ := getMany_inv (p := putNetAddr pver true) (P := WFNetAddr pver true) (getNetAddr_inv pver true) _ _ _ _ h3
+  obtain ⟨e4, e5⟩ := pure_inv h
+  subst e1 e2 e3 e4 e5 hl
+  refine ⟨putVarInt l.length ++ l.flatMap (putNetAddr pver true), rest, ?_, by simp, k2, fun hh => by omega, hall⟩
+  simp only [encodePayload]; rw [if_neg (by omega), if_neg (by omega)]
+
+theorem reencode_ping (gmax pver : Nat) (bs : Bytes) (m : Msg) (h : decodePayload gmax pver .MsgPing bs = .ok m) :
+    ∃ enc rest, encodePayload pver m = .ok enc ∧ bs = enc ++ rest ∧ WF gmax pver m := by
+  obtain ⟨rest, h⟩ := decodePayload_inv h
+  simp only [decodeRd] at h
+  split at h
+  · rename_i hp
+    obtain ⟨n, b1, h1, h⟩ := bind_snd_inv h
+    obtain ⟨e1, k1⟩ := get64le_inv h1
+    obtain ⟨e2, e3⟩ := pure_inv h
+    subst e1 e2 e3
+    refine ⟨put64le n, rest, ?_, rfl, ?_⟩
+    · simp only [encodePayload]; rw [if_pos hp]
+    · show (if bip0031Version < pver then n < 2^64 else n = 0); rw [if_pos hp]; exact k1
+  · rename_i hp
+    obtain ⟨e2, e3⟩ := pure_inv h
+    subst e2 e3
+    refine ⟨[], rest, ?_, rfl, ?_⟩
+    · simp only [encodePayload]; rw [if_neg hp]
+    · show (if bip0031Version < pver then 0 < 2^64 else 0 = 0); rw [if_neg hp]
+
+theorem reencode_pong (gmax pver : Nat) (bs : Bytes) (m : Msg) (h : decodePayload gmax pver .MsgPong bs = .ok m) :
+    ∃ enc rest, encodePayload pver m = .ok enc ∧ bs = enc ++ rest ∧ WF gmax pver m := by
+  obtain ⟨rest, h⟩ := decodePayload_inv h
+  simp only [decodeRd] at h
+  split at h
+  · exact (fail_inv h).elim
+  · rename_i hp
+    obtain ⟨n, b1, h1, h⟩ := bind_snd_inv h
+    obtain ⟨e1, k1⟩ := get64le_inv h1
+    obtain ⟨e2, e3⟩ := pure_inv h
+    subst e1 e2 e3
+    refine ⟨put64le n, rest, ?_, rfl, by omega, k1⟩
+    simp only [encodePayload]; rw [if_neg hp]
+
+theorem reencode_feefilter (gmax pver : Nat) (bs : Bytes) (m : Msg) (h : decodePayload gmax pver .MsgFeeFilter bs = .ok m) :
+    ∃ enc rest, encodePayload pver m = .ok enc ∧ bs = enc ++ rest ∧ WF gmax pver m := by
+  obtain ⟨rest, h⟩ := decodePayload_inv h
+  simp only [decodeRd] at h
+  split at h
+  · exact (fail_inv h).elim
+  · rename_i hp
+    obtain ⟨n, b1, h1, h⟩ := bind_snd_inv h
+    obtain ⟨e1, k1⟩ := get64le_inv h1
+    obtain ⟨e2, e3⟩ := pure_inv h
+    subst e1 e2 e3
+    refine ⟨put64le n, rest, ?_, rfl, by omega, k1⟩
+    simp only [encodePayload]; rw [if_neg hp]
+
+theorem reencode_reject (gmax pver : Nat) (bs : Bytes) (m : Msg) (h : decodePayload gmax pver .MsgReject bs = .ok m) :
+    ∃ enc rest, encodePayload pver m = .ok enc ∧ bs = enc ++ rest ∧ WF gmax pver m := by
+  obtain ⟨rest, h⟩ := decodePayload_inv h
+  simp only [decodeRd, decReject] at h
+  split at h
+  · exact (fail_inv h).elim
+  · rename_i hp
+    obtain ⟨cmd, b1, h1, h⟩ := bind_snd_inv h
+    obtain ⟨code, b2, h2, h⟩ := bind_snd_inv h
+    obtain ⟨reason, b3, h3, h⟩ := bind_snd_inv h
+    obtain ⟨hash, b4, h4, h⟩ := bind_snd_inv h
+    obtain ⟨e1, k1, _⟩ := getVarBytes_inv h1
+    obtain ⟨e2, k2⟩ := get8_inv h2
+    obtain ⟨e3, k3, _⟩ := getVarBytes_inv h3
+    obtain ⟨e5, e6⟩ := pure_inv h
+    subst e1 e2 e3 e5 e6
+    refine ⟨putVarBytes cmd ++ put8 code ++ putVarBytes reason ++ (if cmd = cmdBlock ∨ cmd = cmdTx then hash else []), rest, ?_, ?_,
+      by omega, k1, k3, k2, ?_⟩
+    · simp only [encodePayload]; rw [if_neg hp]
+    · split at h4
+      · rename_i hc
+        obtain ⟨e4, _⟩ := getHash_inv _ _ _ h4
+        rw [e4, if_pos hc]; simp [putHash]
+      · rename_i hc
+        obtain ⟨_, e4⟩ := pure_inv h4
+        rw [e4, if_neg hc]; simp
+    · split at h4
+      · rename_i hc; rw [if_pos hc]; exact (getHash_inv _ _ _ h4).2
+      · rename_i hc; rw [if_neg hc]; exact (pure_inv h4).1
+
+theorem reencode_getdata (gmax pver : Nat) (bs : Bytes) (m : Msg) (h : decodePayload gmax pver .MsgGetData bs = .ok m) :
+    ∃ enc rest, encodePayload pver m = .ok enc ∧ bs = enc ++ rest ∧ WF gmax pver m := by
+  obtain ⟨rest, h⟩ := decodePayload_inv h
+  simp only [decodeRd] at h
+  obtain ⟨l, b1, h1, h⟩ := bind_snd_inv h
+  obtain ⟨e1, e2⟩ := pure_inv h
+  obtain ⟨e3, wf⟩ := decInvList_inv _ _ _ h1
+  subst e1 e2
+  refine ⟨putVarInt l.length ++ l.flatMap putInvVect, rest, ?_, e3, wf⟩
+  simp only [encodePayload, encInvList]; rw [if_neg (by have := wf.1; omega)]
+
+theorem reencode_notfound (gmax pver : Nat) (bs : Bytes) (m : Msg) (h : decodePayload gmax pver .MsgNotFound bs = .ok m) :
+    ∃ enc rest, encodePayload pver m = .ok enc ∧ bs = enc ++ rest ∧ WF gmax pver m := by
+  obtain ⟨rest, h⟩ := decodePayload_inv h
+  simp only [decodeRd] at h
+  obtain ⟨l, b1, h1, h⟩ := bind_snd_inv h
+  obtain ⟨e1, e2⟩ := pure_inv h
+  obtain ⟨e3, wf⟩ := decInvList_inv _ _ _ h1
+  subst e1 e2
+  refine ⟨putVarInt l.length ++ l.flatMap putInvVect, rest, ?_, e3, wf⟩
+  simp only [encodePayload, encInvList]; rw [if_neg (by have := wf.1; omega)]
+
+theorem reencode_getblocks (gmax pver : Nat) (bs : Bytes) (m : Msg) (h : decodePayload gmax pver .MsgGetBlocks bs = .ok m) :
+    ∃ enc rest, encodePayload pver m = .ok enc ∧ bs = enc ++ rest ∧ WF gmax pver m := by
+  obtain ⟨rest, h⟩ := decodePayload_inv h
+  simp only [decodeRd] at h
+  obtain ⟨pv, loc, stop, e1, e2, wf⟩ := decLocator_inv _ _ _ _ h
+  subst e1
+  refine ⟨put32le pv ++ putVarInt loc.length ++ loc.flatMap putHash ++ putHash stop, rest, ?_, e2, wf⟩
+  simp only [encodePayload, encLocator]; rw [if_neg (by have := wf.2.1; omega)]
+
+theorem reencode_sendheaders (gmax pver : Nat) (bs : Bytes) (m : Msg) (h : decodePayload gmax pver .MsgSendHeaders bs = .ok m) :
+    ∃ enc rest, encodePayload pver m = .ok enc ∧ bs = enc ++ rest ∧ WF gmax pver m :=
+  reencode_trivial gmax pver _ .sendheaders bs m sendHeadersVersion rfl rfl Iff.rfl h
+
+theorem reencode_mempool (gmax pver : Nat) (bs : Bytes) (m : Msg) (h : decodePayload gmax pver .MsgMemPool bs = .ok m) :
+    ∃ enc rest, encodePayload pver m = .ok enc ∧ bs = enc ++ rest ∧ WF gmax pver m :=
+  reencode_trivial gmax pver _ .mempool bs m bip0035Version rfl rfl Iff.rfl h
+
+theorem reencode_verack (gmax pver : Nat) (bs : Bytes) (m : Msg) (h : decodePayload gmax pver .MsgVerAck bs = .ok m) :
+    ∃ enc rest, encodePayload pver m = .ok enc ∧ bs = enc ++ rest ∧ WF gmax pver m := by
+  obtain ⟨rest, h⟩ := decodePayload_inv h
+  obtain ⟨e1, e2⟩ := pure_inv h
+  subst e1 e2
+  exact ⟨[], rest, rfl, rfl, trivial⟩
+
+theorem reencode_getaddr (gmax pver : Nat) (bs : Bytes) (m : Msg) (h : decodePayload gmax pver .MsgGetAddr bs = .ok m) :
+    ∃ enc rest, encodePayload pver m = .ok enc ∧ bs = enc ++ rest ∧ WF gmax pver m := by
+  obtain ⟨rest, h⟩ := decodePayload_inv h
+  obtain ⟨e1, e2⟩ := pure_inv h
+  subst e1 e2
+  exact ⟨[], rest, rfl, rfl, trivial⟩
+
+/-- relay byte 0x02: decodes (DisableRelayTx = false), re-encodes with relay byte 0x01 -/
+def versionRelay2 : Bytes := List.replicate 85 0 ++ [2]
+
+theorem reencode_version_counterexample :
+    ∃ m enc, decodePayload serviceMaxPayload 70013 .MsgVersion versionRelay2 = .ok m ∧
+      encodePayload 70013 m = .ok enc ∧ enc.length = versionRelay2.length ∧ enc ≠ versionRelay2 := by
+  refine ⟨.version 0 0 0 ⟨goZeroTime, 0, List.replicate 16 0, 0⟩ ⟨goZeroTime, 0, List.replicate 16 0, 0⟩ 0 [] 0 false,
+    List.replicate 85 0 ++ [1], ?_, ?_, ?_, ?_⟩ <;> decide
+
+
+/-- all kinds at once -/
+theorem reencode (gmax pver : Nat) (t : MsgType) (bs : Bytes) (m : Msg)
+    (h : decodePayload gmax pver t bs = .ok m) (hv : t ≠ .MsgVersion) (hpc : t ≠ .MsgProtoconf)
+    (ha : t = .MsgAddr → multipleAddressVersion ≤ pver) :
+    ∃ enc rest, encodePayload pver m = .ok enc ∧ bs = enc ++ rest ∧ WF gmax pver m := by
+  cases t
+  case MsgVersion => exact absurd rfl hv
+  case MsgProtoconf => exact absurd rfl hpc
+  case MsgVerAck => exact reencode_verack gmax pver bs m h
+  case MsgGetAddr => exact reencode_getaddr gmax pver bs m h
+  case MsgAddr => exact reencode_addr gmax pver (ha rfl) bs m h
+  case MsgGetBlocks => exact reencode_getblocks gmax pver bs m h
+  case MsgGetHeaders => exact reencode_getheaders gmax pver bs m h
+  case MsgHeaders => exact reencode_headers gmax pver bs m h
+  case MsgInv => exact reencode_inv gmax pver bs m h
+  case MsgGetData => exact reencode_getdata gmax pver bs m h
+  case MsgNotFound => exact reencode_notfound gmax pver bs m h
+  case MsgPing => exact reencode_ping gmax pver bs m h
+  case MsgPong => exact reencode_pong gmax pver bs m h
+  case MsgReject => exact reencode_reject gmax pver bs m h
+  case MsgSendHeaders => exact reencode_sendheaders gmax pver bs m h
+  case MsgFeeFilter => exact reencode_feefilter gmax pver bs m h
+  case MsgMemPool => exact reencode_mempool gmax pver bs m h
+  all_goals (obtain ⟨_, h⟩ := decodePayload_inv h; exact (fail_inv (b := bs) h).elim)
 
 /-! ## rejection of hostile frames (for ALL header field values and ALL streams) -/
 
